@@ -114,6 +114,20 @@ def constructed(rng):
                 for sg in (1, -1):
                     out.append("ratio %s" % G.fD(sg * c, s))
                     out.append("hash %s" % G.fD(sg * c, s))
+    # live sets with wrap twins (values that an unchecked alignment would make look equal) and near neighbours
+    for _ in range(150):
+        p = rng.randrange(0, 18)
+        q = rng.randrange(p + 1, 19)
+        k = q - p
+        a = rng.randrange(M // P10[k] + 1, min(M, 3 * (M // P10[k] + 1)) + 1) * rng.choice((1, -1))
+        w = G.wrap_twin(a, k)
+        if w is None:
+            continue
+        items = [(a, p), (w, q)] + G.representations(a, p)[:3] + G.representations(w, q)[:3]
+        rng.shuffle(items)
+        kk = rng.randrange(1, len(items))
+        out.append("hashset %d %s" % (kk, " ".join(G.fD(*t) for t in items)))
+        out.append("hashset %d %s" % (len(items), " ".join(G.fD(*t) for t in items)))
     for s in range(19):
         out.append("ratio D0:%d" % s)
         out.append("hash D0:%d" % s)
